@@ -87,6 +87,49 @@ pub fn run(rep: &mut Rep) {
         }
     }
     rep.note("sweep: QoS 0/1/2 x every legal PUBACK(9)/PUBREC(9)/PUBCOMP(2) reason x short/full form x QoS 2 future polled promptly or late x companion {none, subscribe outstanding, QoS 1 publish outstanding, inbound QoS 1/2 traffic} x 2 poll orders x packet identifiers {1,255,256,0x7fff,0x8000,65534..} via hook H2");
+    // 1b. the same handshakes for publishes carrying rarely used options whose encoded size crosses the length-field
+    //     boundaries (the PUBLISH on the connection must be exactly one well-formed packet with the requested content)
+    rep.note("options: QoS 0/1/2 publishes with a content type of 20 / 110 / 117-120 (property length 127 -> 128) / 300 / 17 000 bytes plus a user property, acknowledged with success and with a failure reason; QoS 2 through both phases");
+    for qos in [0u8, 1, 2] {
+        for v in 0..8usize {
+            for fail in [false, true] {
+                let id = format!("options:q{qos}:{v}:{}", fail as u8);
+                idx += 1;
+                if !rep.take(idx, &id) {
+                    continue;
+                }
+                let mut w = World::boot(WorldCfg { seed: rep.seed, ..Default::default() });
+                w.rich_pubs = true;
+                // filler operations so that the publish is operation number 3v+2 (which selects the v-th option size)
+                for _ in 0..(3 * v + 2) {
+                    w.start(0, Kind::Ping);
+                    w.settle();
+                    w.pingresp();
+                    w.settle();
+                }
+                w.settle_check();
+                let kind = [Kind::Pub0, Kind::Pub1, Kind::Pub2][qos as usize];
+                let op = w.start(1, kind);
+                w.settle_check();
+                if qos > 0 && w.ackable().contains(&(op, 1)) {
+                    w.deliver_ack(op, 1, if fail && qos == 1 { 3 } else { 0 }, 1);
+                    w.settle_check();
+                    if qos == 2 && w.ackable().contains(&(op, 2)) {
+                        w.deliver_ack(op, 2, if fail { 1 } else { 0 }, 0);
+                        w.settle_check();
+                    }
+                }
+                finish(&mut w);
+                rep.add("evaluations", 1);
+                rep.add("publishes_with_options", 1);
+                rep.distinct(&("options", qos, v, fail));
+                if harvest(rep, &mut w, &id) == 0 {
+                    rep.sample(|| format!("{id} -> {:?}", w.sim.ops[op].out.as_ref().map(|o| o.brief())));
+                }
+                add_counters(rep, &w);
+            }
+        }
+    }
     // 2. bounded-exhaustive interleavings
     let a = Alpha {
         kinds: vec![Kind::Pub0, Kind::Pub1, Kind::Pub2, Kind::Ping],
